@@ -5,7 +5,8 @@
 //!
 //! Scenario (JSON): {"name":..,"workers":1..2,"shutdown_s":1..2,"conns":N,"stop":"graceful"|"forced",
 //!   "release":[{"c":0,"at":"before_stop"|"never"|<ms after stop>}], "second_stop":bool, "drop_future":bool,
-//!   "pause_first":bool, "late_connect":bool, "stop_gap_ms":N}
+//!   "pause_first":bool, "late_connect":bool, "stop_gap_ms":N, "busy_ms":N}
+//! busy_ms: every connection handler blocks its worker thread for N ms right after it started (no yield)
 //! stop_gap_ms: the server thread is held for N ms between telling the accept thread to stop and sending Stop to the
 //! workers (hook `stop_gap`): the schedule "accept thread exits before the workers hear about the stop".
 //! Signal scenarios run in a child process (`vsrv e2e-child`), see `run_signal_scenario`.
@@ -94,6 +95,7 @@ pub fn run_scenario(sc: &Value) -> Vec<Value> {
     let slog = log.clone();
     let rel = release.clone();
     let stop_gap = sc["stop_gap_ms"].as_u64().unwrap_or(0);
+    let busy_ms = sc["busy_ms"].as_u64().unwrap_or(0);
     let srv_thread = thread::spawn(move || {
         // the Server future (and with it handle_cmd) is polled on this thread
         actix_server::verif::set_stop_gap_ms(stop_gap);
@@ -120,6 +122,11 @@ pub fn run_scenario(sc: &Value) -> Vec<Value> {
                             }
                             let c = b[0] as usize;
                             l4.emit(json!({"e": "ConnStarted", "c": c, "thread": format!("{:?}", thread::current().id())}));
+                            if busy_ms > 0 {
+                                // a handler that does not yield: the worker THREAD is blocked (it cannot even look at a
+                                // stop message) - a forced stop must not wait for it
+                                thread::sleep(Duration::from_millis(busy_ms));
+                            }
                             // dropped before the service future completed = the connection was torn down
                             let mut note = KillNote { log: l4.clone(), c, finished: false };
                             while !rel.get(c).map(|f| f.load(Ordering::SeqCst)).unwrap_or(true) {
